@@ -184,11 +184,15 @@ def run_case(case, rec, ssj=None):
         return present
     # dataframe entry point
     other = list(range(len(vals)))
-    df = pd.DataFrame({'k': other, 'z': ['z'] * len(vals)}, index=index)
-    df.insert(1, 'c', make_series(kind, vals).array)      # positional: no index alignment involved
+    # column labels: strings, strings that are no identifiers, integers (pd.DataFrame(rows)), floats, booleans
+    K, CC, Z = rng.choice([('k', 'c', 'z')] * 6 + [(0, 1, 2), (2, 0, 1), ('a b', 'c-1', '2x'), ('k', '', 'z'),
+                                                   (1.5, 2.5, 'z'), (True, False, 'z')])
+    rec.add('column_label_types', type(CC).__name__)
+    df = pd.DataFrame({K: other, CC: make_series(kind, vals).array, Z: ['z'] * len(vals)}, index=index)
     before = T.snapshot_df(df)
+    tag = tag[:-2] + ', column label %r): ' % (CC,) if CC != 'c' else tag
     try:
-        res = ssj.dataframe_column_to_str(df, 'c', inplace=inplace, return_col=return_col)
+        res = ssj.dataframe_column_to_str(df, CC, inplace=inplace, return_col=return_col)
     except AssertionError as e:
         if inplace and return_col:
             rec.count('rejected_flag_combination')
@@ -207,8 +211,8 @@ def run_case(case, rec, ssj=None):
     if inplace:
         if res is not True:
             rec.violation('return_value', tag + 'returned %r, expected True' % (res,), case=case)
-        check_converted(rec, case, tag, df['c'], exp, 'the column converted in place')
-        if cells(df['k']) != other or list(df.columns) != ['k', 'c', 'z']:
+        check_converted(rec, case, tag, df[CC], exp, 'the column converted in place')
+        if cells(df[K]) != other or list(df.columns) != [K, CC, Z]:
             rec.violation('input_modified', tag + 'other columns of the frame changed', case=case)
     elif return_col:
         if not isinstance(res, pd.Series):
@@ -223,8 +227,8 @@ def run_case(case, rec, ssj=None):
             return present
         if res is df:
             rec.violation('return_value', tag + 'returned the input object itself, not a copy', case=case)
-        check_converted(rec, case, tag, res['c'], exp, 'column c of the returned frame')
-        if list(res.columns) != ['k', 'c', 'z'] or cells(res['k']) != other:
+        check_converted(rec, case, tag, res[CC], exp, 'column c of the returned frame')
+        if list(res.columns) != [K, CC, Z] or cells(res[K]) != other:
             rec.violation('conversion', tag + 'other columns of the returned frame differ', case=case)
         if T.snapshot_df(df) != before:
             rec.violation('input_modified', tag + 'the input frame was modified', case=case)
